@@ -1243,7 +1243,7 @@ def main():
                         "over 2x3 / 3x2 stored points (collapse both references, expand, concat with itself)")
     big_cases(ck, use_model)
     big = 0.04 if ck.tier == "quick" else 0.06
-    explore(ck, ck.budget(130, 1300), ck.budget(50, 600), ck.budget(30, 300), big, use_model)
+    explore(ck, ck.budget(95, 1300), ck.budget(40, 600), ck.budget(25, 300), big, use_model)
     if ck.broken() and not ck.violations:
         # failing-input search on the real code with the larger budget (oracle only)
         big_cases(ck, False)
